@@ -355,8 +355,10 @@ def visits_all(ctx, cfg, a, base, length, sink, sink_iter_res, sink_slice_res):
         it, cl = f.args[0], f.args[1]
         if not _pure_full_iter(it, base, length):
             return False, "form C: for_each receiver is not the unadapted iterator over the full view: %s" % vstr(it)
+        if cl == ("V", "fn", sink):
+            return True, "form C: for_each(%s) over the unadapted full-view iterator: the sink itself is the function applied to every element" % sink.split("::")[-1]
         if not (cl[0] == "A" and isinstance(cl[1], tuple) and cl[1][0] == "closure"):
-            return False, "form C: for_each argument is not a closure literal"
+            return False, "form C: for_each argument is neither a closure literal nor the sink function itself"
         cbs = [b for b in ctx.db(cfg).bodies if b.get("path") == cl[1][1]]
         if len(cbs) != 1:
             return False, "form C: closure body not found"
